@@ -19,6 +19,7 @@ define_language! {
         Lam(Bind<AppliedId>) = "lam",
         Let(Bind<AppliedId>, AppliedId) = "let",
         Lam2(Bind<Bind<AppliedId>>) = "lam2",
+        Sym(Symbol),
     }
 }
 
@@ -120,6 +121,13 @@ impl Naming {
     }
 }
 
+pub fn sym_name(pay: u32) -> String {
+    format!("sy{pay}")
+}
+pub fn sym_pay(name: &str) -> u32 {
+    name.strip_prefix("sy").and_then(|x| x.parse().ok()).unwrap_or(0)
+}
+
 pub trait SimLang: Language + 'static {
     const NAME: &'static str;
     /// node with null children
@@ -144,6 +152,7 @@ impl SimLang for LS {
             "p5" => LS::P5(s(0), s(1), s(2), s(3), s(4)),
             "p6" => LS::P6(s(0), s(1), s(2), s(3), s(4), s(5)),
             "k" => LS::K(t.pay),
+            "sym" => LS::Sym(Symbol::from(sym_name(t.pay))),
             "u" => LS::U(nul()),
             "b" => LS::B(nul(), nul()),
             "g" => LS::G(s(0), nul()),
@@ -165,6 +174,7 @@ impl SimLang for LS {
             LS::P5(a, b, c, d, e) => ("p5", 0, vec![*a, *b, *c, *d, *e], vec![]),
             LS::P6(a, b, c, d, e, f) => ("p6", 0, vec![*a, *b, *c, *d, *e, *f], vec![]),
             LS::K(p) => ("k", *p, vec![], vec![]),
+            LS::Sym(sy) => ("sym", sym_pay(sy.as_str()), vec![], vec![]),
             LS::U(_) => ("u", 0, vec![], vec![vec![]]),
             LS::B(_, _) => ("b", 0, vec![], vec![vec![], vec![]]),
             LS::G(s, _) => ("g", 0, vec![*s], vec![vec![]]),
